@@ -21,12 +21,16 @@ import SpiceEv.Cmd.Distributed
 import SpiceEv.Cmd.StratDistributed
 import SpiceEv.Cmd.StratDistributedRun
 import SpiceEv.Cmd.FlexBand
+import SpiceEv.Cmd.ReportFlex
+import SpiceEv.Cmd.GridFile
+import SpiceEv.Cmd.ReportJson
 import SpiceEv.Cmd.StratPeakShaving
 import SpiceEv.Cmd.StratFlexWindow
 import SpiceEv.Cmd.StratSchedule
 import SpiceEv.Cmd.StratPeakLoadWindow
 import SpiceEv.Cmd.StratBalancedMarket
 import SpiceEv.Cmd.ScenarioCtor
+import SpiceEv.Cmd.StratInit
 open SpiceEv
 
 def allHandlers : List (String × Handler) :=
@@ -44,11 +48,15 @@ def allHandlers : List (String × Handler) :=
   ++ Cmd.StratDistributed.handlers
   ++ Cmd.StratDistributedRun.handlers
   ++ Cmd.FlexBand.handlers
+  ++ Cmd.ReportFlex.handlers
+  ++ Cmd.GridFile.handlers
+  ++ Cmd.ReportJson.handlers
   ++ PeakShaving.Cmd.handlers
   ++ Cmd.StratFlexWindow.handlers
   ++ Cmd.StratSchedule.handlers
   ++ Cmd.StratPeakLoadWindow.handlers
   ++ Cmd.StratBalancedMarket.handlers
+  ++ Cmd.StratInit.handlers
   ++ Cmd.Gen.handlers
   ++ Cmd.Costs.handlers
   ++ Cmd.ScheduleGen.handlers
